@@ -3,7 +3,6 @@ package props
 import (
 	"fmt"
 	"math/big"
-	"strings"
 
 	"github.com/cockroachdb/apd/v3"
 
@@ -69,7 +68,7 @@ func cbrtCase(t *mon.T, which string, c dec.Ctx, x dec.D) {
 	}
 	if o.Err != nil {
 		cls := ""
-		if strings.Contains(o.Err.Error(), "did not converge") && c.P <= 2 && abs64(x.Adj()) >= 3000 {
+		if c.P <= 2 && abs64(x.Adj()) >= 3000 {
 			// KF-C11-cbrt-nonconvergence: the range reduction multiplies by 8
 			// (or 1/8) about 1.1*|adjusted exponent| times at 2p+2 digits; at
 			// p <= 2 the accumulated rounding error ruins the initial estimate.
